@@ -176,15 +176,18 @@ PROPS = {
     'C12': dict(
         modules=['Resonate.Properties.C12'],
         tie_filter=r'^$',
-        harness=[sysdiff('sysdiff-backpressure', None, (25, 120), (600, 150), 'C12,C01', ['-smallcfg', '-shutdown', '50', '-fail', '15', '-crash', '1', '-routed', '40', '-known', 'F5'], (200, 150))],
+        harness=[sysdiff('sysdiff-backpressure', None, (25, 120), (600, 150), 'C12,C01', ['-smallcfg', '-shutdown', '50', '-fail', '15', '-crash', '1', '-routed', '40', '-known', 'F5'], (200, 150)),
+                 dict(bin='stackrun', name='stackrun', quick=['-rounds', '60'], thorough=['-rounds', '1500'], search=['-rounds', '400'])],
         rule=SYS_RULE + '; queue / batch / pool sizes drawn down to 1 (API queue 1..100, coroutine pool 1..1000, submission batch 1..1000), shutdown requested at a random moment in about half of the scripts, '
              '15% of the submissions fail before or after processing; the C12 monitor counts the responses of every request id on the implementation (never two, none for an id never submitted) and, at the end '
-             'of every script, keeps the server running for 8*(outstanding+5) further rounds and requires exactly one response for every request submitted since the last crash',
+             'of every script, keeps the server running for 8*(outstanding+5) further rounds and requires exactly one response for every request submitted since the last crash; '
+             'stackrun: the REAL system.Loop on its own goroutine with the REAL api / aio queues and the REAL store, router and sender worker goroutines, queue / batch / pool sizes 1..10, '
+             '1..8 concurrent client goroutines, shutdown requested after a random number of submissions, transports answering from their own goroutines; no model (timing is not reproducible): '
+             'every request must be answered exactly once, the kernel must not stall, shutdown must complete; each round in a child process with a watchdog',
         assumptions=['request ids are distinct (the front ends draw a fresh id per request)', 'no process crash between submission and response (responses of in-flight requests die with the process: C06)',
                      'the kernel does not halt on a panic (C13)'],
         trusted_base=['kernel tick and coroutines are modelled by hand (Model/System, Model/Coroutines) and tied by sysdiff, which compares the response events of every step',
-                      'clients are serialised by the harness: concurrent EnqueueSQE from several goroutines on the real API channel is Go channel semantics and is not exercised',
-                      'the AIO subsystem queues are owned by the harness: a full subsystem queue appears as an injected failure of the submission'],
+                      'in sysdiff clients are serialised and the AIO queues are harness-owned; the real aio glue, worker goroutines and concurrent clients are exercised by stackrun only (sampled schedules, no proof)'],
     ),
     'C14': dict(
         modules=['Resonate.Properties.C14'],
